@@ -4,9 +4,12 @@
   *received bytes* (`T`); the shell is generic in the handlers.
 -/
 import OLP.Shell.LemmasA
+import OLP.Shell.LemmasEx
 
 namespace OLP.Props.C05
 open OLP OLP.KV OLP.Shell
+
+set_option linter.unusedSectionVars false
 
 variable {K V C E T H D : Type} [DecidableEq K] [DecidableEq V] [DecidableEq C] [DecidableEq H]
 variable (cfg : Cfg K V) (hs : Handlers K V C E T H D) (e : E)
@@ -63,6 +66,180 @@ theorem replay_any_encoding_noop_partial (hc : Canonical hs) (n : Node K V C T H
   rw [hc t₁ t₂ hsame] at h2
   exact ⟨r, deliverTx_hit cfg hs e n' t₂ r h2⟩
 
+/-! ### the canonical-encoding guard
+
+  `Canonical` is an assumption about hash and ProcessDeliver together, and the handlers of /repo do
+  not meet it (`reencoded_replay_executes_twice` below). What they do since the repair of S11 is to
+  refuse, in Validate, every byte string that is not THE serialisation of what it parses to. The
+  theorem below is about handlers of that shape and assumes nothing else. -/
+
+/-- `Guarded parse ser hs`: the handlers have the canonical-encoding guard. `parse` decodes the
+    received bytes, `ser` is the serialiser; bytes `t` are canonical when `ser (parse t) = t`.
+    The ONLY thing asked of the handlers: the Validate program of non-canonical bytes is `.fail`
+    (it touches nothing and fails), i.e. `validate t = if ser (parse t) = t then … else .fail`
+    (`guardV`). Nothing is asked of the hash, of ProcessCheck / ProcessDeliver / ProcessFee or of
+    the block hooks, nor of `parse` and `ser` (they need not be inverse to each other). -/
+def Guarded {P : Type} (parse : T → P) (ser : P → T) (hs : Handlers K V C E T H D) : Prop :=
+  ∀ t, ser (parse t) ≠ t → hs.validate t = .fail
+
+/-- the guard as a program: "if the received bytes are not the canonical serialisation of their
+    parse then fail, else run the Validate program of the parse" -/
+def guardV [DecidableEq T] {P : Type} (parse : T → P) (ser : P → T) (v : P → Prog K V C E Unit)
+    (t : T) : Prog K V C E Unit :=
+  if ser (parse t) = t then v (parse t) else .fail
+
+theorem guarded_of_guardV [DecidableEq T] {P : Type} (parse : T → P) (ser : P → T)
+    (v : P → Prog K V C E Unit) (h : hs.validate = guardV parse ser v) : Guarded parse ser hs := by
+  intro t hne
+  rw [h]
+  unfold guardV
+  rw [if_neg hne]
+
+/-- At-most-once for ANY re-encoding, for handlers with the canonical-encoding guard.
+
+    Assumptions on the handlers: `Guarded parse ser hs` and nothing else (no `Canonical`, no
+    injectivity of the hash, nothing about ProcessDeliver). Assumptions on the transactions: `t₁`
+    is canonical (`ser (parse t₁) = t₁`) and was in the block `txs`; `t₂` is any byte string with the
+    same parse.
+
+    Then, at any point of any later block (`later` are the blocks in between, `blk` / `k` the
+    transactions of the current block delivered so far), `DeliverTx t₂` leaves tree, block cache,
+    block gas, volatile memory, check state, index and height as they are, and
+      * if `t₂ = t₁` it returns the response recorded for `t₁` and the node is untouched;
+      * otherwise `t₂` is not canonical, and either its own bytes are in the index (then the
+        response recorded for them is returned and the node is untouched: nothing runs), or it is
+        refused with `ok = false`, no data, no gas (`replay_any_encoding_rejected_guarded` below
+        shows that with a collision-free hash the recorded response has `ok = false` too);
+    and `CheckTx t₂` answers `false`. -/
+theorem replay_any_encoding_noop_guarded {P : Type} (parse : T → P) (ser : P → T)
+    (hg : Guarded parse ser hs) (n : Node K V C T H D) (txs : List T) (later : List (List T))
+    (blk : List T) (k : Nat) (t₁ t₂ : T) (hm : t₁ ∈ txs) (hc : ser (parse t₁) = t₁)
+    (hp : parse t₂ = parse t₁) :
+    let n' := midBlock cfg hs e (execBlocks cfg hs e (execBlock cfg hs e n txs).1 later).1 blk k false
+    let x := deliverTx cfg hs e n' t₂
+    (x.1.tree = n'.tree ∧ x.1.dlv.cache = n'.dlv.cache ∧ x.1.dlv.gas = n'.dlv.gas ∧
+     x.1.vol = n'.vol ∧ x.1.chk = n'.chk ∧ x.1.idx = n'.idx ∧ x.1.height = n'.height) ∧
+    ((t₂ = t₁ ∧ ∃ r, lookupIdx (execBlock cfg hs e n txs).1.idx (hs.hash t₁) = some r ∧ x = (n', r)) ∨
+     (t₂ ≠ t₁ ∧ ((∃ r, lookupIdx n'.idx (hs.hash t₂) = some r ∧ x = (n', r)) ∨
+                 x.2 = { ok := false, data := none, gasUsed := 0 }))) ∧
+    (checkTx cfg hs e n' t₂).2 = false := by
+  intro n' x
+  have h1 := execBlock_indexed cfg hs e n txs t₁ hm
+  obtain ⟨r, hr⟩ := Option.isSome_iff_exists.mp h1
+  have h2 : lookupIdx n'.idx (hs.hash t₁) = some r := by
+    show lookupIdx (midBlock cfg hs e _ blk k false).idx (hs.hash t₁) = some r
+    rw [midBlock_idx]
+    exact execBlocks_lookup_stable cfg hs e later _ _ r hr
+  by_cases heq : t₂ = t₁
+  · subst heq
+    have hx : x = (n', r) := deliverTx_hit cfg hs e n' t₂ r h2
+    refine ⟨?_, Or.inl ⟨rfl, r, hr, hx⟩, ?_⟩
+    · rw [hx]; exact ⟨rfl, rfl, rfl, rfl, rfl, rfl, rfl⟩
+    · rw [checkTx_hit cfg hs e n' t₂ r h2]
+  · have hnc : ser (parse t₂) ≠ t₂ := by
+      intro h; apply heq; rw [← h, hp, hc]
+    have hv := hg t₂ hnc
+    refine ⟨?_, Or.inr ⟨heq, ?_⟩, checkTx_validate_fail cfg hs e n' t₂ hv⟩
+    · cases hl : lookupIdx n'.idx (hs.hash t₂) with
+      | some r' =>
+        have hx : x = (n', r') := deliverTx_hit cfg hs e n' t₂ r' hl
+        rw [hx]; exact ⟨rfl, rfl, rfl, rfl, rfl, rfl, rfl⟩
+      | none =>
+        have hx : x = _ := deliverTx_validate_fail cfg hs e n' t₂ hv hl
+        rw [hx]; exact ⟨rfl, rfl, rfl, rfl, rfl, rfl, rfl⟩
+    · cases hl : lookupIdx n'.idx (hs.hash t₂) with
+      | some r' => exact Or.inl ⟨r', rfl, deliverTx_hit cfg hs e n' t₂ r' hl⟩
+      | none =>
+        right
+        show (deliverTx cfg hs e n' t₂).2 = _
+        rw [deliverTx_validate_fail cfg hs e n' t₂ hv hl]
+
+/-- every response the index holds for non-canonical bytes is a refusal -/
+def IdxGuarded {P : Type} (parse : T → P) (ser : P → T) (hs : Handlers K V C E T H D)
+    (idx : List (H × TxRes D)) : Prop :=
+  ∀ t r, ser (parse t) ≠ t → lookupIdx idx (hs.hash t) = some r → r.ok = false
+
+theorem idxGuarded_nil {P : Type} (parse : T → P) (ser : P → T) :
+    IdxGuarded parse ser hs ([] : List (H × TxRes D)) := by
+  intro t r _ h; cases h
+
+/-- with the guard and a collision-free hash, executing a block keeps the index `IdxGuarded` -/
+theorem execBlock_idxGuarded {P : Type} (parse : T → P) (ser : P → T) (hg : Guarded parse ser hs)
+    (hinj : ∀ a b, hs.hash a = hs.hash b → a = b) (n : Node K V C T H D)
+    (hi : IdxGuarded parse ser hs n.idx) (txs : List T) :
+    IdxGuarded parse ser hs (execBlock cfg hs e n txs).1.idx := by
+  intro t r hnc hl
+  rw [execBlock_idx] at hl
+  unfold lookupIdx at hl
+  rw [alookup_append] at hl
+  cases hold : alookup (hs.hash t) n.idx with
+  | some v =>
+    rw [hold] at hl
+    simp only [Option.some.injEq] at hl
+    subst hl
+    exact hi t v hnc hold
+  | none =>
+    rw [hold] at hl
+    simp only at hl
+    have hmem := alookup_mem _ _ _ hl
+    rw [List.mem_map] at hmem
+    obtain ⟨⟨t', r'⟩, hz, hp⟩ := hmem
+    simp only [Prod.mk.injEq] at hp
+    obtain ⟨hh, rfl⟩ := hp
+    have := hinj _ _ hh
+    subst this
+    obtain ⟨m, hm1, hm2⟩ := deliverAll_zip_mem cfg hs e txs _ _ _ hz
+    have hmiss : lookupIdx m.idx (hs.hash t') = none := by
+      rw [hm1, (beginBlock_frame cfg hs e n).2.1]; exact hold
+    rw [hm2, deliverTx_validate_fail cfg hs e m t' (hg t' hnc) hmiss]
+
+theorem execBlocks_idxGuarded {P : Type} (parse : T → P) (ser : P → T) (hg : Guarded parse ser hs)
+    (hinj : ∀ a b, hs.hash a = hs.hash b → a = b) (blocks : List (List T)) (n : Node K V C T H D)
+    (hi : IdxGuarded parse ser hs n.idx) :
+    IdxGuarded parse ser hs (execBlocks cfg hs e n blocks).1.idx := by
+  induction blocks generalizing n with
+  | nil => exact hi
+  | cons b bs ih =>
+    show IdxGuarded parse ser hs (execBlocks cfg hs e (execBlock cfg hs e n b).1 bs).1.idx
+    exact ih _ (execBlock_idxGuarded cfg hs e parse ser hg hinj n hi b)
+
+/-- the sharp form: if, in addition, the hash is collision-free and the history started from an
+    index that records only refusals for non-canonical bytes (the empty index of genesis does:
+    `idxGuarded_nil`), then a re-encoding `t₂ ≠ t₁` of an executed transaction is ALWAYS answered
+    with `ok = false`, and changes nothing -/
+theorem replay_any_encoding_rejected_guarded {P : Type} (parse : T → P) (ser : P → T)
+    (hg : Guarded parse ser hs) (hinj : ∀ a b, hs.hash a = hs.hash b → a = b)
+    (n : Node K V C T H D) (hi : IdxGuarded parse ser hs n.idx) (txs : List T)
+    (later : List (List T)) (blk : List T) (k : Nat) (t₁ t₂ : T) (hm : t₁ ∈ txs)
+    (hc : ser (parse t₁) = t₁) (hp : parse t₂ = parse t₁) :
+    let n' := midBlock cfg hs e (execBlocks cfg hs e (execBlock cfg hs e n txs).1 later).1 blk k false
+    let x := deliverTx cfg hs e n' t₂
+    (x.1.tree = n'.tree ∧ x.1.dlv.cache = n'.dlv.cache ∧ x.1.dlv.gas = n'.dlv.gas ∧
+     x.1.vol = n'.vol ∧ x.1.chk = n'.chk ∧ x.1.idx = n'.idx ∧ x.1.height = n'.height) ∧
+    ((t₂ = t₁ ∧ ∃ r, lookupIdx (execBlock cfg hs e n txs).1.idx (hs.hash t₁) = some r ∧ x = (n', r)) ∨
+     (t₂ ≠ t₁ ∧ x.2.ok = false)) ∧
+    (checkTx cfg hs e n' t₂).2 = false := by
+  intro n' x
+  obtain ⟨h1, h2, h3⟩ :=
+    replay_any_encoding_noop_guarded cfg hs e parse ser hg n txs later blk k t₁ t₂ hm hc hp
+  refine ⟨h1, ?_, h3⟩
+  rcases h2 with h | ⟨hne, h⟩
+  · exact Or.inl h
+  · refine Or.inr ⟨hne, ?_⟩
+    rcases h with ⟨r, hl, hx⟩ | hx
+    · have hnc : ser (parse t₂) ≠ t₂ := by
+        intro h; apply hne; rw [← h, hp, hc]
+      have hi' : IdxGuarded parse ser hs n'.idx := by
+        show IdxGuarded parse ser hs (midBlock cfg hs e _ blk k false).idx
+        rw [midBlock_idx]
+        exact execBlocks_idxGuarded cfg hs e parse ser hg hinj later _
+          (execBlock_idxGuarded cfg hs e parse ser hg hinj n hi txs)
+      show (deliverTx cfg hs e n' t₂).2.ok = false
+      rw [hx]
+      exact hi' t₂ r hnc hl
+    · show (deliverTx cfg hs e n' t₂).2.ok = false
+      rw [hx]
+
 /-! … but JSON is not canonical (S11): the counterexample in the model. Transactions are pairs
     (content, encoding); the handler only looks at the content, the hash at both. -/
 
@@ -84,5 +261,141 @@ theorem reencoded_replay_executes_twice :
     let n2 := (execBlock exCfg exH () n1 [(5, 1)]).1
     exH.deliver (5, 0) = exH.deliver (5, 1) ∧ n1.tree.get 1 = some 5 ∧ n2.tree.get 1 = some 10 := by
   refine ⟨rfl, ?_, ?_⟩ <;> decide
+
+/-! ## Non-vacuity
+
+  Transactions are pairs (content, encoding), as above. The programs below really use the store:
+  Validate burns the signature-check gas, ProcessDeliver reads the counter under key 1 (metered),
+  writes it back increased by the content and then — content 0 only — fails after its write; the fee
+  step reads the gas counter; a BeginBlock hook, aimed at the deliver state, records the height under
+  key 7; the block gas limit is 10000. -/
+
+def ctrDeliver (tx : Nat × Nat) : Prog Nat Nat Nat Unit Nat :=
+  .get 1 (fun r => match r with
+    | .val v => .set 1 (v.getD 0 + tx.1) (fun _ => if tx.1 = 0 then .fail else .ret tx.1)
+    | .errGas => .fail)
+
+/-! ### `Canonical`, not by accident: the replay key is the hash of the CONTENT
+
+  Same handler as `exH` (it looks at the content only), but the hash ignores the encoding too: the
+  model of a replay key computed from the canonical re-serialisation of the parsed transaction
+  instead of from the received bytes. `Canonical` holds because the ProcessDeliver program
+  determines the content (it writes it), and the content determines the hash. -/
+
+def canH : Handlers Nat Nat Nat Unit (Nat × Nat) Nat Nat :=
+  { hash := fun tx => tx.1, validate := fun _ => .burn 5 (.ret ()), check := fun _ => .ret 0,
+    deliver := ctrDeliver,
+    fee := fun _ g0 => .gas (fun g => .ret (g - g0)),
+    begin := fun h => [(true, .set 7 h (fun _ => .ret ()))],
+    endb := fun _ => [], gasLimit := 10000 }
+
+def canN : Node Nat Nat Nat (Nat × Nat) Nat Nat :=
+  { tree := Tree.empty ⟨1, 0, 0⟩, dlv := Ov.fresh 10000, chk := Ov.fresh 10000, vol := fun _ => none,
+    idx := [], aim := .check, height := 0, closed := false }
+
+theorem canH_canonical : Canonical canH := by
+  intro t₁ t₂ h
+  simp only [canH, ctrDeliver, Prog.get.injEq, true_and] at h
+  have h' := congrFun h (.val none)
+  simp only [Prog.set.injEq, true_and, Option.getD_none, Nat.zero_add] at h'
+  exact h'.1
+
+/-- `replay_any_encoding_noop_partial` applied: block 1 is `[(5,0), (0,0)]` (the second one fails
+    after its write), block 2 is `[(3,0)]`; then content 5 in ANOTHER encoding is delivered -/
+theorem canonical_instance :
+    let n' := (execBlocks exCfg canH () (execBlock exCfg canH () canN [(5, 0), (0, 0)]).1 [[(3, 0)]]).1
+    ∃ r, deliverTx exCfg canH () n' (5, 1) = (n', r) :=
+  replay_any_encoding_noop_partial exCfg canH () canH_canonical canN [(5, 0), (0, 0)] [[(3, 0)]]
+    (5, 0) (5, 1) (by decide) rfl
+
+/-- … and what that looks like: the counter is 8 after the two blocks; a third block
+    `[(4,0), (5,1), (5,0)]` adds 4 only — both the re-encoding `(5,1)` and the byte-identical `(5,0)`
+    get the recorded response of block 1 and write nothing (compare
+    `reencoded_replay_executes_twice`, where the hash sees the encoding) -/
+theorem canonical_instance_facts :
+    let r1 := execBlock exCfg canH () canN [(5, 0), (0, 0)]
+    let n' := (execBlocks exCfg canH () r1.1 [[(3, 0)]]).1
+    let r3 := execBlock exCfg canH () n' [(4, 0), (5, 1), (5, 0)]
+    r1.2.results = [⟨true, some 5, 25⟩, ⟨false, none, 27⟩] ∧
+    r1.2.log = [.set 7 1, .set 1 5, .save] ∧
+    n'.tree.get 1 = some 8 ∧
+    r3.2.results = [⟨true, some 4, 25⟩, ⟨true, some 5, 25⟩, ⟨true, some 5, 25⟩] ∧
+    r3.2.log = [.set 7 3, .set 1 12, .save] ∧ r3.1.tree.get 1 = some 12 := by
+  dsimp only
+  decide
+
+/-- `replay_noop_in_later_block` (no hypothesis) on the same history -/
+example :
+    let n' := (execBlocks exCfg canH () (execBlock exCfg canH () canN [(5, 0), (0, 0)]).1 [[(3, 0)]]).1
+    ∃ r, deliverTx exCfg canH () n' (0, 0) = (n', r) ∧ checkTx exCfg canH () n' (0, 0) = (n', false) :=
+  replay_noop_in_later_block exCfg canH () canN [(5, 0), (0, 0)] [[(3, 0)]] (0, 0) (by decide)
+
+/-! ### the guard: `Guarded` holds where `Canonical` does not
+
+  The hash is the hash of the received bytes again (`id`, collision-free), ProcessDeliver still looks
+  at the content only — so `Canonical` FAILS — but Validate refuses every encoding other than 0. -/
+
+def gdParse (t : Nat × Nat) : Nat := t.1
+def gdSer (p : Nat) : Nat × Nat := (p, 0)
+
+def gdH : Handlers Nat Nat Nat Unit (Nat × Nat) (Nat × Nat) Nat :=
+  { hash := id, validate := guardV gdParse gdSer (fun _ => .burn 5 (.ret ())),
+    check := fun _ => .ret 0, deliver := ctrDeliver,
+    fee := fun _ g0 => .gas (fun g => .ret (g - g0)),
+    begin := fun h => [(true, .set 7 h (fun _ => .ret ()))],
+    endb := fun _ => [], gasLimit := 10000 }
+
+def gdN : Node Nat Nat Nat (Nat × Nat) (Nat × Nat) Nat :=
+  { tree := Tree.empty ⟨1, 0, 0⟩, dlv := Ov.fresh 10000, chk := Ov.fresh 10000, vol := fun _ => none,
+    idx := [], aim := .check, height := 0, closed := false }
+
+theorem gdH_guarded : Guarded gdParse gdSer gdH := guarded_of_guardV gdH gdParse gdSer (fun _ => .burn 5 (.ret ())) rfl
+
+theorem gdH_not_canonical : ¬ Canonical gdH := by
+  intro h
+  have := h (5, 0) (5, 1) rfl
+  simp [gdH] at this
+
+/-- `replay_any_encoding_rejected_guarded` applied, all hypotheses proved: block 1 is
+    `[(5,0), (0,0)]`, block 2 is `[(3,0)]`, and in block 3, after `(4,0)` was delivered, the
+    re-encoding `(5,1)` of the executed `(5,0)` arrives -/
+theorem guarded_instance :
+    let n' := midBlock exCfg gdH ()
+      (execBlocks exCfg gdH () (execBlock exCfg gdH () gdN [(5, 0), (0, 0)]).1 [[(3, 0)]]).1 [(4, 0)] 1 false
+    let x := deliverTx exCfg gdH () n' (5, 1)
+    (x.1.tree = n'.tree ∧ x.1.dlv.cache = n'.dlv.cache ∧ x.1.dlv.gas = n'.dlv.gas ∧
+     x.1.vol = n'.vol ∧ x.1.chk = n'.chk ∧ x.1.idx = n'.idx ∧ x.1.height = n'.height) ∧
+    (((5, 1) = ((5, 0) : Nat × Nat) ∧ ∃ r,
+        lookupIdx (execBlock exCfg gdH () gdN [(5, 0), (0, 0)]).1.idx (gdH.hash (5, 0)) = some r ∧
+        x = (n', r)) ∨
+     ((5, 1) ≠ ((5, 0) : Nat × Nat) ∧ x.2.ok = false)) ∧
+    (checkTx exCfg gdH () n' (5, 1)).2 = false :=
+  replay_any_encoding_rejected_guarded exCfg gdH () gdParse gdSer gdH_guarded (fun _ _ h => h) gdN
+    (idxGuarded_nil gdH gdParse gdSer) [(5, 0), (0, 0)] [[(3, 0)]] [(4, 0)] 1 (5, 0) (5, 1)
+    (by decide) rfl rfl
+
+/-- … and what that looks like. Block 1 already contains a re-encoding `(5,1)` behind `(5,0)`: it
+    is refused (no gas, no data) and recorded as refused. In block 3 `(5,1)` comes back (index hit:
+    the recorded refusal), `(5,0)` comes back (index hit: the recorded success, nothing runs) and a
+    fresh re-encoding `(5,2)` is refused by the guard. The counter moves by 4 only; the block
+    cache before and after each of the three is the same -/
+theorem guarded_instance_facts :
+    let r1 := execBlock exCfg gdH () gdN [(5, 0), (0, 0), (5, 1)]
+    let n2 := (execBlocks exCfg gdH () r1.1 [[(3, 0)]]).1
+    let r3 := execBlock exCfg gdH () n2 [(4, 0), (5, 1), (5, 0), (5, 2)]
+    let m := midBlock exCfg gdH () n2 [(4, 0)] 1 false
+    r1.2.results = [⟨true, some 5, 25⟩, ⟨false, none, 27⟩, ⟨false, none, 0⟩] ∧
+    r1.2.log = [.set 7 1, .set 1 5, .save] ∧
+    n2.tree.get 1 = some 8 ∧
+    r3.2.results = [⟨true, some 4, 25⟩, ⟨false, none, 0⟩, ⟨true, some 5, 25⟩, ⟨false, none, 0⟩] ∧
+    r3.2.log = [.set 7 3, .set 1 12, .save] ∧ r3.1.tree.get 1 = some 12 ∧
+    m.dlv.cache = [(7, 3), (1, 12)] ∧
+    (deliverTx exCfg gdH () m (5, 2)).1.dlv.cache = [(7, 3), (1, 12)] ∧
+    (deliverTx exCfg gdH () m (5, 2)).1.dlv.gas = m.dlv.gas ∧
+    (deliverTx exCfg gdH () m (5, 2)).2 = ⟨false, none, 0⟩ ∧
+    (checkTx exCfg gdH () m (5, 2)).2 = false := by
+  dsimp only
+  decide
+
 
 end OLP.Props.C05
